@@ -763,3 +763,95 @@ Proof.
     rewrite (insert_row_plain_any _ _ mode _ ondup _ _ _ E). apply IH. }
   now rewrite (G _ _ _ F).
 Qed.
+
+(* ================================================================ non-vacuity *)
+Module Examples.
+Import Coq.Strings.Byte.
+
+Definition c_id := [x69; x64].
+Definition c_name_ := [x6e; x61; x6d; x65].
+Definition c_age := [x61; x67; x65].
+
+Definition sch : schema :=
+  {| s_cols := [ {| c_name := c_id; c_ty := TInt MIN_I64 MAX_I64; c_notnull := true;
+                    c_default := None; c_auto := true |};
+                 {| c_name := c_name_; c_ty := TStr SVarchar 8; c_notnull := false;
+                    c_default := Some VNull; c_auto := false |};
+                 {| c_name := c_age; c_ty := TInt (-128) 127; c_notnull := true;
+                    c_default := Some (VInt 7); c_auto := false |} ];
+     s_pk := [0%nat] |}.
+
+Definition row1 := [VInt 1; VStr [x61]; VInt 5].
+Definition row2 := [VInt 2; VNull; VInt 9].
+Definition row4 := [VInt 4; VStr [x62]; VInt 5].
+Definition st0 : tstate :=
+  {| ts_rows := [([VInt 1], row1); ([VInt 2], row2); ([VInt 4], row4)]; ts_auto := 5 |}.
+
+(* the hypotheses of the invariants hold of a real table *)
+Example st0_sorted_nonvacuous : sorted (ts_rows st0) /\ tbl_wf (ts_rows st0).
+Proof.
+  assert (S : sorted (ts_rows st0)) by (repeat constructor).
+  split; [exact S | now apply sorted_wf].
+Qed.
+
+(* UPDATE t SET age = age + 1 WHERE name = 'a': one row changes, the row
+   whose name is NULL (condition UNKNOWN) and the non-matching row stay *)
+Definition upd := SUpdate [(c_age, EArith APlus (ECol c_age) (ELit (VInt 1)))]
+                          (Some (ECmp CEq (ECol c_name_) (ELit (VStr [x61])))) [] None.
+Example update_frame_nonvacuous :
+  r_out (exec sch st0 upd []) = OkMod 1 0 /\
+  ts_rows (r_state (exec sch st0 upd [])) =
+    [([VInt 1], [VInt 1; VStr [x61]; VInt 6]); ([VInt 2], row2); ([VInt 4], row4)] /\
+  matchesb (mk_env sch []) (Some (ECmp CEq (ECol c_name_) (ELit (VStr [x61])))) row2 = false.
+Proof. repeat split; vm_compute; reflexivity. Qed.
+
+(* DELETE FROM t WHERE age = 5 ORDER BY id DESC LIMIT 1 removes only id 4 *)
+Definition del := SDelete (Some (ECmp CEq (ECol c_age) (ELit (VInt 5))))
+                          [(ECol c_id, true)] (Some (LimLit 1, None)).
+Example delete_nonvacuous :
+  r_out (exec sch st0 del []) = OkMod 1 0 /\
+  ts_rows (r_state (exec sch st0 del [])) = [([VInt 1], row1); ([VInt 2], row2)].
+Proof. split; vm_compute; reflexivity. Qed.
+
+(* INSERT INTO t (id) VALUES (2): duplicate key, nothing changes *)
+Example insert_duplicate_nonvacuous :
+  exec sch st0 (SInsert InsPlain (Some [c_id]) [[ELit (VInt 2)]] []) [] =
+  {| r_state := st0; r_out := Fail (EErr E_DUP) |}.
+Proof. vm_compute; reflexivity. Qed.
+
+(* INSERT INTO t (name) VALUES ('z'), (?): two generated keys, LAST_INSERT_ID = the first *)
+Example insert_auto_nonvacuous :
+  exec sch st0 (SInsert InsPlain (Some [c_name_]) [[ELit (VStr [x7a])]; [EParam 0]] []) [VStr [x79]] =
+  {| r_state := {| ts_rows := ts_rows st0 ++ [([VInt 5], [VInt 5; VStr [x7a]; VInt 7]);
+                                               ([VInt 6], [VInt 6; VStr [x79]; VInt 7])];
+                   ts_auto := 7 |};
+     r_out := OkMod 2 5 |}.
+Proof. vm_compute; reflexivity. Qed.
+
+(* INSERT INTO t (id, age) VALUES (2, 1) ON DUPLICATE KEY UPDATE age = VALUES(age) + age *)
+Example upsert_nonvacuous :
+  let q := SInsert InsPlain (Some [c_id; c_age]) [[ELit (VInt 2); ELit (VInt 1)]]
+                   [(c_age, EArith APlus (EValues c_age) (ECol c_age))] in
+  r_out (exec sch st0 q []) = OkMod 2 0 /\
+  lookup [VInt 2] (ts_rows (r_state (exec sch st0 q []))) = Some [VInt 2; VNull; VInt 10].
+Proof. split; vm_compute; reflexivity. Qed.
+
+(* SELECT name FROM t ORDER BY age DESC, id LIMIT 2 is a prefix of the unlimited result *)
+Example limit_nonvacuous :
+  let o := [(ECol c_age, true); (ECol c_id, false)] in
+  exec_select sch (ts_rows st0) (FList [ECol c_name_]) None o None [] =
+    Ok [[VNull]; [VStr [x61]]; [VStr [x62]]] /\
+  exec_select sch (ts_rows st0) (FList [ECol c_name_]) None o (Some (LimLit 2, None)) [] =
+    Ok [[VNull]; [VStr [x61]]].
+Proof. split; vm_compute; reflexivity. Qed.
+
+(* MySQL's coercion: id = '2' compares numerically, name = 0 reads 'a' as 0,
+   '10' < '9' as strings but 10 > '9x' as numbers *)
+Example coercion_nonvacuous :
+  exec_select sch (ts_rows st0) FCount (Some (ECmp CEq (ECol c_id) (ELit (VStr [x32])))) [] None [] = Ok [[VInt 1]] /\
+  exec_select sch (ts_rows st0) FCount (Some (ECmp CEq (ECol c_name_) (ELit (VInt 0)))) [] None [] = Ok [[VInt 2]] /\
+  eval (mk_env sch []) (ECmp CLt (ELit (VStr [x31; x30])) (ELit (VStr [x39]))) = Ok (VInt 1) /\
+  eval (mk_env sch []) (ECmp CGt (ELit (VInt 10)) (ELit (VStr [x39; x78]))) = Ok (VInt 1).
+Proof. repeat split; vm_compute; reflexivity. Qed.
+
+End Examples.
